@@ -92,7 +92,9 @@ Section Bdf.
   Record state (H : Type) := mkS {
     s_x : F; s_y : vec; s_h : F (* current_h > 0 *); s_d : list vec; s_order : nat; s_neq : nat;
     s_jac : mat; s_lu : mat; s_ip : nat -> nat; s_lucur : bool; s_curc : F;
-    s_stats : stats; s_log : list (F * vec); s_jaclog : list (F * vec); s_cb : H
+    s_stats : stats; s_log : list (F * vec); s_jaclog : list (F * vec);
+    s_failed : option F;  (* size of the last attempt rejected since the last accepted step (fix for F31) *)
+    s_cb : H
   }.
   Record result (H : Type) := mkR { r_status : status; r_h : F; r_stats : stats;
                                     r_x : F; r_y : vec; r_log : list (F * vec);
@@ -101,6 +103,7 @@ Section Bdf.
   Arguments s_x {H}. Arguments s_y {H}. Arguments s_h {H}. Arguments s_d {H}. Arguments s_order {H}.
   Arguments s_neq {H}. Arguments s_jac {H}. Arguments s_lu {H}. Arguments s_ip {H}. Arguments s_lucur {H}.
   Arguments s_curc {H}. Arguments s_stats {H}. Arguments s_log {H}. Arguments s_jaclog {H}. Arguments s_cb {H}.
+  Arguments s_failed {H}.
 
   Section Loop.
     Context {H : Type}.
@@ -173,13 +176,16 @@ Section Bdf.
                (lu : mat) (ip : nat -> nat) (lucur : bool) (curc : F) (st : stats) (log : list (F * vec))
       : state H + result H :=
       inl (mkS (s_x s) (s_y s) (h * factor) (change_d d (s_order s) factor) (s_order s) 0 jac lu ip lucur curc
-               (add_rej st) log jl (s_cb s)).
+               (add_rej st) log jl (Some h) (s_cb s)).
 
     Definition step (s : state H) : state H + result H :=
       let x := s_x s in let y := s_y s in
       let fin st := inr (mkR st (hres s) (s_stats s) x y (s_log s) (s_jaclog s) (s_cb s)) in
       if N.leb (p_max_steps P) (nstep (s_stats s)) then fin NeedLargerNMax
       else if s_h s <? L LMINPOS then fin StepSizeTooSmall
+      (* min_step is a lower bound: once an attempt no longer than it has been rejected nothing smaller is tried *)
+      else if (hmin >? zero O) && (s_h s <? hmin) && (match s_failed s with Some fh => fh <=? hmin | None => false end)
+      then fin StepSizeTooSmall
       else
         let order := s_order s in
         (* clamp to hmax / hmin *)
@@ -229,7 +235,7 @@ Section Bdf.
             match lures with
             | inr st' =>
                 inl (mkS x y (h * L L0_5) (change_d d order (L L0_5)) order 0 (s_jac s) (s_lu s) (s_ip s) false
-                         (s_curc s) (add_rej st') (s_log s) (s_jaclog s) (s_cb s))
+                         (s_curc s) (add_rej st') (s_log s) (s_jaclog s) (Some h) (s_cb s))
             | inl (lu, ip, lucur, curc, st) =>
                 let nr := newton (S maxiter) x_new c psi scale lu ip y_predict (repeat (zero O) n) None 0 [] in
                 let st := add_fev st (N.of_nat (length (nr_calls nr))) in
@@ -237,7 +243,7 @@ Section Bdf.
                 if negb (nr_conv nr) then
                   let jac := compact O n (jacf x_new y_predict) in
                   inl (mkS x y (h * L L0_5) (change_d d order (L L0_5)) order 0 jac lu ip false curc
-                           (add_rej (add_jev st 1)) log ((x_new, y_predict) :: s_jaclog s) (s_cb s))
+                           (add_rej (add_jev st 1)) log ((x_new, y_predict) :: s_jaclog s) (Some h) (s_cb s))
                 else
                   let y_new := nr_y nr in let delta := nr_delta nr in
                   let m2 := L L2 * ofnat O maxiter in
@@ -247,7 +253,7 @@ Section Bdf.
                   if error_norm >? one O then
                     let factor := fmax O (safety * pow O error_norm (neg O (one O) / (ofnat O order + one O))) (L MIN_FACTOR) in
                     inl (mkS x y (h * factor) (change_d d order factor) order 0 (s_jac s) lu ip lucur curc
-                             (add_rej st) log (s_jaclog s) (s_cb s))
+                             (add_rej st) log (s_jaclog s) (Some h) (s_cb s))
                   else
                     let st := add_acc st in
                     let neq := S neq in
@@ -301,9 +307,9 @@ Section Bdf.
                           let '(jac, jl, st) := if Nat.eqb new_order order then (jac, jl, st)
                                                 else (compact O n (jacf x_new ycb), (x_new, ycb) :: jl, add_jev st 1) in
                           inl (mkS x_new ycb (h * step_factor) (change_d d3 new_order step_factor) new_order 0
-                                   jac lu ip false curc st log jl cbs)
+                                   jac lu ip false curc st log jl None cbs)
                         else
-                          inl (mkS x_new ycb h d3 order neq jac lu ip lucur curc st log jl cbs)
+                          inl (mkS x_new ycb h d3 order neq jac lu ip lucur curc st log jl None cbs)
                     end
             end.
 
@@ -370,7 +376,7 @@ Section Bdf.
                   | _ => (d, jac, jl, st, log)
                   end in
                 loop P n f jacf atolv rtolv ntol maxiter xend direction hmax hmin cb fuel
-                     (mkS x0 y h d 1 0 jac zm (fun _ => 0) false (zero O) st log jl cbs)
+                     (mkS x0 y h d 1 0 jac zm (fun _ => 0) false (zero O) st log jl None cbs)
             end
         end.
 End Bdf.
